@@ -187,6 +187,21 @@ fn observe(t: &SymbolTable, m: &MTable, names: &[String], ids: &mut Ids, info: &
     for n in names {
         let got = t.lookup(n);
         let want = m.lookup(n);
+        // the convenience accessors on the look-up result agree with it
+        {
+            use oq3_semantics::symbols::SymbolErrorTrait;
+            let as_id = got.to_symbol_id();
+            let (tuple_id, tuple_type) = got.as_tuple();
+            let want_type = want.map(|id| m.all[id].1.clone()).unwrap_or(Type::Undefined);
+            let id_ok = match (&as_id, want) {
+                (Ok(id), Some(k)) => *id == ids.get(k),
+                (Err(SymbolError::MissingBinding), None) => true,
+                _ => false,
+            };
+            if !id_ok || tuple_id != as_id || tuple_type != want_type || *got.symbol_type() != want_type {
+                return Err(("lookup-accessors".into(), format!("lookup({:?}): to_symbol_id() = {:?}, as_tuple() = ({:?}, {:?}), symbol_type() = {:?}; expected id {:?} of type {:?}", n, as_id, tuple_id, tuple_type, got.symbol_type(), want, want_type)));
+            }
+        }
         match (&got, want) {
             (Ok(rec), Some(id)) => {
                 if rec.symbol_id() != ids.get(id) {
